@@ -372,3 +372,8 @@ Proof.
 Qed.
 
 End ServerFrag.
+
+Lemma parse_prefix_sound (json_loads : bytes -> jres) (msg : bytes) (r : response) (n : nat) :
+  parse_prefix json_loads msg = PResp r n ->
+  json_loads (firstn n msg) = JResp r /\ (exists p, firstn n msg = p ++ [rbrace]) /\ Z.of_nat n <= MAX_RESPONSE_SIZE.
+Proof. intro Hs. exact (scan_sound json_loads msg [] 0 r n Hs eq_refl). Qed.
